@@ -41,6 +41,7 @@ class Instance:
 class Hook:
     def __init__(self, inst):
         self.inst = inst
+        self.denominators = None
 
     # whole-field reads
     def member(self, rd, e, path, st):
@@ -149,6 +150,8 @@ class Hook:
                 for a, r_ in enumerate(rows):
                     for b, c_ in enumerate(cols):
                         old = X[r_, c_]
+                        if e['op'] == '/=' and getattr(self, 'denominators', None) is not None and V[a, b].free_symbols:
+                            self.denominators.append((V[a, b], l.get('loc')))
                         X[r_, c_] = {'=': V[a, b], '*=': old * V[a, b], '/=': old / V[a, b], '+=': old + V[a, b], '-=': old - V[a, b]}[e['op']]
                 st.fields[path] = sp.ImmutableMatrix(X)
                 return [(val, st)]
@@ -291,10 +294,22 @@ class Hook:
         return NotImplemented
 
 
-def run(fx, f, inst, max_paths=16):
-    """final states of method f on the instance (one per path); raises sym.Unsupported when not interpretable"""
+def run(fx, f, inst, max_paths=16, denominators=None):
+    """final states of method f on the instance (one per path); raises sym.Unsupported when not interpretable.
+    `denominators`: a list that receives (expression, location) for every quantity something is divided by on the way."""
     H = Hook(inst)
+    H.denominators = denominators
     rd = sym.Reader(fx, call_hook=H, member_hook=H.member, max_paths=max_paths, max_depth=8)
+    if denominators is not None:
+        _arith = rd.arith
+
+        def recording(op, a, b, e):
+            if op == '/' and isinstance(b, sp.Basic):
+                for d_ in (list(b) if isinstance(b, sp.MatrixBase) else [b]):
+                    if d_.free_symbols:
+                        denominators.append((d_, e.get('loc')))
+            return _arith(op, a, b, e)
+        rd.arith = recording
     rd.unroll = 16
     st0 = sym.State()
     for k, v in inst.init.items():
